@@ -16,6 +16,7 @@ pub trait Check {
 }
 
 pub mod c01;
+pub mod c02;
 pub mod c03;
 pub mod c04;
 pub mod c05;
@@ -32,6 +33,7 @@ pub mod progspace;
 pub fn all() -> Vec<Box<dyn Check>> {
     vec![
         Box::new(c01::C01),
+        Box::new(c02::C02),
         Box::new(c03::C03),
         Box::new(c04::C04),
         Box::new(c05::C05),
